@@ -52,6 +52,7 @@ def _rtick():
     if n is not None:
         if n == 0:
             FAULT["fired"] = True
+            FAULT["rn"] = None          # one shot: if the library swallows it, nothing else raises in its place
             raise fault_class(FAULT["kind"])("injected container read fault")
         FAULT["rn"] = n - 1
 
